@@ -92,7 +92,7 @@ theorem arity_lookup {Val : Type} (ps : List Str) (as : List Val) (hl : ps.lengt
   refine ⟨_, bindArgs_ok ps as hl, fun i h => ?_, fun x hx => ?_⟩
   · apply get_of_mem_nodup
     · rw [List.map_reverse, List.map_fst_zip (by omega)]
-      exact List.nodup_reverse.2 hn
+      exact nodup_reverse hn
     · apply List.mem_reverse.2
       have hz : i < (ps.zip as).length := by simp [List.length_zip]; omega
       have := List.getElem_mem hz
@@ -101,7 +101,10 @@ theorem arity_lookup {Val : Type} (ps : List Str) (as : List Val) (hl : ps.lengt
     rw [List.map_reverse, List.map_fst_zip (by omega)]
     simpa using hx
 
-/-! ### non-vacuity -/
+/-! ### non-vacuity
+
+(`decide +kernel`: the `Decidable` instance is evaluated by the kernel only — no axiom is added; the elaborator's
+own evaluator is skipped because it does not share the sub-terms of the expression parser and takes minutes) -/
 
 /-- a template with a `length` chain, several expressions per line, a comment, a blank line, two brace groups
     on one line (one with an empty alternative), and no final newline -/
@@ -116,37 +119,37 @@ abbrev exTemplate : List Str := [
 abbrev exEnv : Env Int := [("m".toList, 5), ("n".toList, 3)]
 
 /-- the hypothesis of the main theorem holds on it … -/
-example : ∀ l ∈ substituted evalInt pyStrInt exTemplate exEnv, FlatBraces l := by decide
+example : ∀ l ∈ substituted evalInt pyStrInt exTemplate exEnv, FlatBraces l := by decide +kernel
 
 /-- … the model computes this (`k = 7`, `j = 7 - 5 // 2 = 5`; six instances, `X` before `Y`, and for each of
     them `1`, `2`, empty) … -/
 example : processList evalInt pyStrInt exTemplate exEnv = .ok
     ("sequence a3 = \"7N\" : 8\n" ++
      "strand X1 = a3 b* : 5\nstrand X2 = a3 b* : 5\nstrand X = a3 b* : 5\n" ++
-     "strand Y1 = a3 b* : 5\nstrand Y2 = a3 b* : 5\nstrand Y = a3 b* : 5\n").toList := by decide
+     "strand Y1 = a3 b* : 5\nstrand Y2 = a3 b* : 5\nstrand Y = a3 b* : 5\n").toList := by decide +kernel
 
 /-- … and so does the specification -/
-example : handExpand evalInt pyStrInt exTemplate exEnv = processList evalInt pyStrInt exTemplate exEnv := by decide
+example : handExpand evalInt pyStrInt exTemplate exEnv = processList evalInt pyStrInt exTemplate exEnv := by decide +kernel
 
 /-- the environment comes from the argument tuple -/
-example : bindArgs ["n".toList, "m".toList] [(3 : Int), 5] = .ok exEnv := by decide
-example : bindArgs ["n".toList, "m".toList] [(3 : Int)] = .error .arity := by decide
-example : bindArgs ["n".toList] [(3 : Int), 5] = .error .arity := by decide
+example : bindArgs ["n".toList, "m".toList] [(3 : Int), 5] = .ok exEnv := by decide +kernel
+example : bindArgs ["n".toList, "m".toList] [(3 : Int)] = .error .arity := by decide +kernel
+example : bindArgs ["n".toList] [(3 : Int), 5] = .error .arity := by decide +kernel
 
 /-- the order matters (the specification is not symmetric in the groups): leftmost slowest -/
 example : expandLine "{a,b}{1,2}\n".toList = "a1\na2\nb1\nb2\n".toList ∧
-    expandLine "{a,b}{1,2}\n".toList ≠ "a1\nb1\na2\nb2\n".toList := by decide
+    expandLine "{a,b}{1,2}\n".toList ≠ "a1\nb1\na2\nb2\n".toList := by decide +kernel
 
 /-- floor division and modulus on negative numbers as in Python; an unbound name and a division by zero
     are errors of the whole call, the syntax error wins over the run-time error -/
 example : processList evalInt pyStrInt ["<-7//2> <-7%3> <7%-3> <-(2--3)*+4>".toList] [] = .ok "-4 2 -2 -20\n".toList := by
-  decide
-example : processList evalInt pyStrInt ["a\n".toList, "<q>\n".toList] exEnv = .error .name := by decide
-example : processList evalInt pyStrInt ["<1//0> <q>\n".toList] exEnv = .error .zerodiv := by decide
-example : processList evalInt pyStrInt ["<1//0> <(>\n".toList] exEnv = .error .zerodiv := by decide
-example : processList evalInt pyStrInt ["<1//0 + (>\n".toList] exEnv = .error .syntax := by decide
+  decide +kernel
+example : processList evalInt pyStrInt ["a\n".toList, "<q>\n".toList] exEnv = .error .name := by decide +kernel
+example : processList evalInt pyStrInt ["<1//0> <q>\n".toList] exEnv = .error .zerodiv := by decide +kernel
+example : processList evalInt pyStrInt ["<1//0> <(>\n".toList] exEnv = .error .zerodiv := by decide +kernel
+example : processList evalInt pyStrInt ["<1//0 + (>\n".toList] exEnv = .error .syntax := by decide +kernel
 
 /-- outside the hypothesis the model still follows the Python: nested groups are expanded innermost first -/
-example : ¬ FlatBraces "{a{b,c}d}\n".toList ∧ duplicate "{a{b,c}d}\n".toList = "abd\nacd\n".toList := by decide
+example : ¬ FlatBraces "{a{b,c}d}\n".toList ∧ duplicate "{a{b,c}d}\n".toList = "abd\nacd\n".toList := by decide +kernel
 
 end Pepper.C13
